@@ -10,6 +10,18 @@ from .engine import Unsupported, SymRaise, TT
 _gid = itertools.count()
 
 
+def _canon(e):
+    """canonical text of a term (native s-expression printer of the simplified term; the python pretty printer is ~20x slower)"""
+    return z3.simplify(e).sexpr() if z3.is_expr(e) else str(e)
+
+
+def _digest(txt):
+    """ghost function names are digests of the canonical summand text (collision probability of sha1/64 bits: negligible)"""
+    import hashlib
+    return hashlib.sha1(txt.encode()).hexdigest()[:16]
+
+
+
 class MV:
     """math-level value 'Empty or hourly series': is_empty (z3 Bool), vec (Vec, phys), dim"""
     def __init__(self, is_empty, vec: Vec, dim):
@@ -83,11 +95,11 @@ class FoldMV:
         J, T_ = z3.Int("J!"), z3.Int("T!")
         saved = list(I.eng.run.pc)
         pm = term(J)
-        cidx = f"{z3.simplify(pm.is_empty)}|{z3.simplify(pm.inidx(T_))}"
-        cval = f"{cidx}|{z3.simplify(pm.v0(T_))}"
+        cidx = f"{_canon(pm.is_empty)}|{_canon(pm.inidx(T_))}"
+        cval = f"{cidx}|{_canon(pm.v0(T_))}"
         I.eng.run.pc[:] = saved
-        k = "F[" + cval + "]"
-        ki = "F[" + cidx + "]"
+        k = "F[" + _digest(cval) + "]"
+        ki = "F[" + _digest(cidx) + "]"
         if self.params:            # nested folds: explicit names (the summand mentions the outer index)
             k, ki = name, (idx_name or name)
         ps = [I_] * len(self.params)
@@ -101,7 +113,7 @@ class FoldMV:
         self._done = set()
 
     def unfold(self, i, t):
-        key = (str(z3.simplify(i)), str(z3.simplify(t)), str(self.params))
+        key = (_canon(i), _canon(t), str(self.params))
         run = self.I.eng.run
         done = run.cache.setdefault(("foldmv", self.name), set())
         if key in done: return
@@ -138,7 +150,7 @@ class FoldQ:
         self.params = tuple(params)
         if not self.params:
             saved = list(I.eng.run.pc)
-            name = "FQ[" + str(z3.simplify(term(z3.Int("J!")))) + "]"
+            name = "FQ[" + _digest(_canon(term(z3.Int("J!")))) + "]"
             I.eng.run.pc[:] = saved
         self.name = name + str([str(p) for p in self.params])
         S_ = z3.Function(f"{name}.SQ", *([I_] * len(self.params)), I_, R)
@@ -147,7 +159,7 @@ class FoldQ:
     def at(self, i):
         run = self.I.eng.run
         done = run.cache.setdefault(("foldq", self.name), set())
-        key = str(z3.simplify(i))
+        key = _canon(i)
         if key not in done:
             done.add(key)
             j = z3.simplify(i - 1)
@@ -223,7 +235,7 @@ class FoldB:
     def __init__(self, I, name, term):
         self.I, self.term = I, term
         saved = list(I.eng.run.pc)
-        name = "FB[" + str(z3.simplify(term(z3.Int("J!")))) + "]"
+        name = "FB[" + _digest(_canon(term(z3.Int("J!")))) + "]"
         I.eng.run.pc[:] = saved
         self.name = name
         self.A = z3.Function(f"{name}.AE", I_, B)
@@ -231,7 +243,7 @@ class FoldB:
     def at(self, i):
         run = self.I.eng.run
         done = run.cache.setdefault(("foldb", self.name), set())
-        key = str(z3.simplify(i))
+        key = _canon(i)
         if key not in done:
             done.add(key)
             j = z3.simplify(i - 1)
